@@ -49,7 +49,7 @@ package http2
 //@ func (*frameCache).getDataFrame :: fc -> f
 //@   props C19
 //@   assigns nothing
-//@   ensures f != nil && (fc == nil ==> fresh(f))
+//@   ensures f != nil && (fc == nil ==> fresh(f)) && (fc != nil ==> f == fc.dataFrame)
 
 //@ func streamError :: id, code -> e
 //@   props C19
@@ -68,7 +68,7 @@ package http2
 //@   callback countError
 //@   ensures [C19:any-frame-header] err == nil ==> f != nil && hdrOf(f) == fh
 //@   ensures [C19:any-error-kind] err != nil ==> f == nil
-//@   assigns DataFrame.data, FrameHeader.valid, FrameHeader.Type, FrameHeader.Flags, FrameHeader.Length, FrameHeader.StreamID
+//@   assigns fc.dataFrame.all
 //@   ensures [C19:data-stream0] fh.StreamID == 0 ==> isConnErrDetail(err, 1)
 //@   ensures [C19:data-pad-byte-missing] fh.StreamID != 0 && flag(fh.Flags, 8) && len(payload) == 0 ==> err == io.ErrUnexpectedEOF
 //@   ensures [C19:data-pad-too-big] fh.StreamID != 0 && flag(fh.Flags, 8) && len(payload) > 0 && payload[0] > len(payload) - 1 ==> isConnErrDetail(err, 1)
@@ -302,6 +302,7 @@ package http2
 //@ func (*Framer).readMetaFrame :: fr, hf -> f, err
 //@   trusted
 //@   requires fr != nil && hf != nil
+//@   assigns fr.errDetail
 
 //@ func (*Framer).ReadFrame :: fr -> f, err
 //@   props C19,C10
